@@ -743,9 +743,11 @@ def _flag_of_own_period(ctx, prog, glf):
             key = f"PER4:flag-of-own-period:{callee_name(c).split('.')[-1]}"
             verdict, why = None, f"is_last_period flag not recognised: {show(f)[:60]}"
             if f[0] == "cmp" and f[1] == ("==",) and len(f[2]) == 2 and p in f[2]:
+                from lcmsa.alg import norm as _norm
+
                 other = f[2][1] if f[2][0] == p else f[2][0]
-                n_like = other[0] == "binop" and other[1] == "-" and other[3] == ("const", 1) and (
-                    (other[2][0] == "attr" and other[2][2] == "n_periods") or callee_name(other[2]) == "builtins.len")
+                n_terms = [x for x in walk(other) if (x[0] == "attr" and x[2] == "n_periods") or callee_name(x) == "builtins.len"]
+                n_like = any(_norm(other) == _norm(("binop", "-", nt, ("const", 1))) for nt in n_terms)
                 verdict = bool(n_like)
                 why = ("is_last_period is (period == n_periods - 1) for the period the object is built for" if n_like else
                        f"is_last_period compares the period with {show(other)[:50]}, not with n_periods - 1")
@@ -781,9 +783,11 @@ def _last_period_flag(ctx, prog, glf):
         ok = False if n is not None else None
         if n is not None and flag[0] == "cmp" and flag[1] == ("==",):
             a, b = flag[2]
+            from lcmsa.alg import norm as _norm
+
             for x, y in ((a, b), (b, a)):
-                if x == index_var and y == ("binop", "-", n, ("const", 1)):
-                    ok = True
+                if x == index_var and _norm(y) == _norm(("binop", "-", n, ("const", 1))):
+                    ok = True  # n - 1 in any arithmetic spelling
         ctx.ob(f"PER4:last-period-flag:{lp.id.split(':')[-1]}", ok, prog.where(flag),
                "is_last_period is true exactly for the last index of the period loop" if ok else
                "is_last_period is not (period == n_periods - 1) for the bound of its own loop", lhs=flag,
